@@ -386,6 +386,13 @@ def _r22_dedup(src, ctx):
     return re.sub(r'\b(\w+)\.dedup\(\);', rep, src)
 
 
+def _r22_split(src, ctx):
+    def rep(m):
+        ctx.log.append(('R22', m.group(0), f'verif_split(&{m.group(1)}, {m.group(2)})'))
+        return f'verif_split(&{m.group(1)}, {m.group(2)})'
+    return re.sub(r"\b(\w+)\.split\(('(?:[^'\\\\]|\\\\.)')\)", rep, src)
+
+
 def r22_str_methods(src, ctx):
     """`v.dedup();` -> verif_dedup(&mut v); `X.trim_end()` -> verif_trim_end(&X); `X.trim_end().to_string()` -> verif_str_to_string(verif_trim_end(&X)); `<that> + "lit"` -> verif_str_add"""
     while True:
@@ -1067,6 +1074,7 @@ def apply_all(src, ctx):
         src = r6s_format_structured(src, ctx)
         src = r22_str_methods(src, ctx)
         src = _r22_dedup(src, ctx)
+        src = _r22_split(src, ctx)
     src = r6_format(src, ctx)
     src = r5_let_chain(src, ctx)
     src = r8_sort(src, ctx)
